@@ -4,6 +4,7 @@ import (
 	"fmt"
 	"go/token"
 	"go/types"
+	"sort"
 	"strings"
 
 	"golang.org/x/tools/go/ssa"
@@ -95,6 +96,21 @@ func (fg *FnGen) callWith(cc *ssa.CallCommon, args []*Val, resT types.Type, pos 
 				names = append(names, fv.Name())
 				args = append(args, fg.val(mc.Bindings[i]))
 			}
+			if con == nil {
+				// an uncontracted local closure may write the private locals it captured
+				for _, b := range mc.Bindings {
+					bv := fg.val(b)
+					if len(bv.L) == 1 {
+						if pfx, ok := fg.privateRefs[bv.L[0].S]; ok {
+							for _, comp := range append([]string{}, fg.compOrder...) {
+								if strings.HasPrefix(comp, "H:"+pfx) {
+									fg.havocComp(comp)
+								}
+							}
+						}
+					}
+				}
+			}
 		} else if fn != nil && len(fn.FreeVars) > 0 && fn.Parent() == fg.fn.Parent() && fn == fg.fn {
 			// recursive call of a closure through its own captured variable
 			for _, fv := range fn.FreeVars {
@@ -118,6 +134,20 @@ func (fg *FnGen) callWith(cc *ssa.CallCommon, args []*Val, resT types.Type, pos 
 func (fg *FnGen) atCallAsserts(name string, args []*Val, pos token.Pos) {
 	if fg.c == nil {
 		return
+	}
+	for _, ac := range fg.c.AtCalls {
+		if ac.Kind != "ghostpre" || !matchCallee(ac.Callee, name) {
+			continue
+		}
+		comp, ok := fg.ghosts[ac.Target]
+		if !ok {
+			panic(unsupported("unknown ghost variable " + ac.Target))
+		}
+		env := fg.env(fg.cur, fg.entry, nil)
+		fg.bindCallArgs(env, args)
+		env.atBlock = fg.curBlock
+		v := fg.evalC(ac.Clause.Expr, env)
+		fg.set(comp, v.one())
 	}
 	for _, ac := range fg.c.AtCalls {
 		if ac.Kind != "assert" || !matchCallee(ac.Callee, name) {
@@ -209,8 +239,22 @@ func (fg *FnGen) applyContract(con *Contract, name string, names []string, args 
 	if isGo {
 		// new goroutine: its effects are not sequenced; havoc what it may modify
 		if !con.HasMod || con.ModAll {
-			fg.frameCheck("$all", nil, pos)
+			if !fg.modAll {
+				fg.oblige("frame", "go."+name, TFalse, pos, "goroutine "+name+" may modify anything but the caller declares a precise frame")
+			}
 			fg.havocAll("go " + name)
+		}
+		for _, m := range con.Modifies {
+			if ev, ok := countEvent(m); ok {
+				if ev == "*" {
+					fg.havocAllCounters(pos)
+				} else {
+					fg.havocCounter("cnt:"+ev, pos)
+				}
+			}
+		}
+		for _, em := range con.Emits {
+			fg.havocCounter("cnt:"+em.Event, pos)
 		}
 		return nil
 	}
@@ -221,18 +265,31 @@ func (fg *FnGen) applyContract(con *Contract, name string, names []string, args 
 			fg.oblige("frame", "call."+name, TFalse, pos, "callee "+name+" may modify anything but the caller declares a precise frame")
 		}
 		fg.havocAll("call " + name)
-	} else {
-		for _, m := range con.Modifies {
-			for _, w := range fg.evalMod(m, mkEnv(pre, pre)) {
-				fg.havocEntry(w, pos)
+	}
+	for _, m := range con.Modifies {
+		if ev, ok := countEvent(m); ok {
+			if ev == "*" {
+				fg.havocAllCounters(pos)
+			} else {
+				fg.havocCounter("cnt:"+ev, pos)
 			}
+			continue
 		}
+		if con.ModAll {
+			continue
+		}
+		for _, w := range fg.evalMod(m, mkEnv(pre, pre)) {
+			fg.havocEntry(w, pos)
+		}
+	}
+	if con.HasMod && !con.ModAll {
 		// allocation may happen
 		fg.havocAllocMonotone()
 	}
 	for _, em := range con.Emits {
 		comp := "cnt:" + em.Event
-		fg.frameCheck(comp, nil, pos)
+		fg.compSort(comp, SInt)
+		fg.effectCheck(comp, pos)
 		curv := fg.get(fg.cur, comp, SInt)
 		delta := IntLit(1)
 		if em.Delta != nil {
@@ -345,6 +402,12 @@ func (fg *FnGen) uncontractedCall(cc *ssa.CallCommon, fn *ssa.Function, name str
 			fg.havocAll("call " + name)
 		} else {
 			for _, comp := range sortedKeys(ws.comps) {
+				if strings.HasPrefix(comp, "cnt:") {
+					continue
+				}
+				if fg.g.isStableComp(comp) && !fg.g.isStableWriter(comp, fn) {
+					continue
+				}
 				sort, ok := fg.compSorts[comp]
 				if !ok {
 					s2, ok2 := fg.g.compSortHints[comp]
@@ -359,11 +422,31 @@ func (fg *FnGen) uncontractedCall(cc *ssa.CallCommon, fn *ssa.Function, name str
 			}
 			fg.havocAllocMonotone()
 		}
-		fg.note("no contract: " + name + " (over-approximated by its computed write set)")
+		if ws.allEvents {
+			if len(ws.why) > 0 {
+				fg.note("callee " + name + " may perform any event because of: " + strings.Join(dedupe(ws.why), "; "))
+			}
+			fg.havocAllCounters(pos)
+		} else {
+			for _, comp := range sortedKeys(ws.comps) {
+				if strings.HasPrefix(comp, "cnt:") {
+					fg.havocCounter(comp, pos)
+				}
+			}
+		}
+		fg.note("no contract: " + name + " (over-approximated by its computed write and effect set)")
 	case fn != nil:
 		// external static callee: may write through pointer/slice arguments only (assumption)
 		fg.note("external call without contract: " + name + " (assumed to write only through its pointer/slice arguments)")
 		for _, a := range args {
+			fg.havocReachable(a, pos)
+		}
+		fg.havocAllocMonotone()
+	case cc.IsInvoke() && fg.g.externalInterface(cc.Value.Type()):
+		// method of an interface type declared outside the repository (arena.Arena, io.Writer, context.Context...):
+		// like an external function it writes only through its arguments and performs none of the repository's events
+		fg.note("external interface method without contract: " + name + " (assumed to write only through its pointer/slice arguments and to perform no modelled event)")
+		for _, a := range args[1:] {
 			fg.havocReachable(a, pos)
 		}
 		fg.havocAllocMonotone()
@@ -372,7 +455,8 @@ func (fg *FnGen) uncontractedCall(cc *ssa.CallCommon, fn *ssa.Function, name str
 			fg.oblige("frame", "call."+name, TFalse, pos, "dynamic call "+name+" without contract may modify anything")
 		}
 		fg.havocAll("dynamic call " + name)
-		fg.note("dynamic call without contract: " + name + " (havocs the whole heap)")
+		fg.havocAllCounters(pos)
+		fg.note("dynamic call without contract: " + name + " (havocs the whole heap and may perform any event)")
 	}
 	if resT == nil {
 		return nil
@@ -446,11 +530,12 @@ func (fg *FnGen) goCall(x *ssa.Go) {
 		return
 	}
 	// a goroutine without contract runs concurrently: everything it may write is havoc from now on
-	fg.note("go statement without contract: " + calleeName(cc) + " (havocs the whole heap)")
+	fg.note("go statement without contract: " + calleeName(cc) + " (havocs the whole heap and may perform any event)")
 	if !fg.modAll {
 		fg.oblige("frame", "go."+calleeName(cc), TFalse, x.Pos(), "goroutine without contract may modify anything")
 	}
 	fg.havocAll("go")
+	fg.havocAllCounters(x.Pos())
 }
 
 func (fg *FnGen) runDefers() {
@@ -458,11 +543,39 @@ func (fg *FnGen) runDefers() {
 	fg.cur.defers = nil
 	for i := len(ds) - 1; i >= 0; i-- {
 		d := ds[i]
+		if fg.inLoop[d.instr.Block().Index] != nil {
+			panic(unsupported("defer inside a loop"))
+		}
+		// conditional execution: run under (reach && pushed), then merge the state with ite(pushed, after, before)
+		before := fg.cur.clone()
+		savedReach := fg.curReach
+		fg.curReach = And(savedReach, d.guard)
+		fg.runOneDefer(d)
+		fg.curReach = savedReach
+		if d.guard.S != "true" {
+			for comp, after := range fg.cur.ver {
+				bv, ok := before.ver[comp]
+				if !ok {
+					bv = fg.get(before, comp, fg.compSorts[comp])
+				}
+				if bv.S != after.S {
+					fg.nfresh++
+					c := fg.declare(fmt.Sprintf("%s@d%d", comp, fg.nfresh), after.Sort)
+					fg.assertRaw(Eq(c, Ite(d.guard, after, bv)))
+					fg.cur.ver[comp] = c
+				}
+			}
+		}
+	}
+}
+
+func (fg *FnGen) runOneDefer(d *deferred) {
+	{
 		cc := &d.instr.Call
 		if b, ok := cc.Value.(*ssa.Builtin); ok {
 			_ = b
 			fg.builtinArgs(b, d.args, nil, d.instr.Pos())
-			continue
+			return
 		}
 		args := d.args
 		if !cc.IsInvoke() && cc.StaticCallee() == nil {
@@ -523,9 +636,22 @@ func (g *Gen) writeSetOf(fn *ssa.Function) *writeSet {
 	}
 	ws := &writeSet{comps: map[string]bool{}}
 	g.writeSets[fn] = ws
-	if con := g.contractFor(fn); con != nil && con.HasMod && !con.ModAll {
-		// contract frames are component-level over-approximated here
-		ws.all = len(con.Modifies) > 0 // conservative: a contracted callee inside an uncontracted one
+	if con := g.contractFor(fn); con != nil {
+		// a contracted callee inside an uncontracted one: heap frame over-approximated by "all" unless pure
+		for _, m := range con.Modifies {
+			if ev, ok := countEvent(m); ok {
+				if ev == "*" {
+					ws.allEvents = true
+				} else {
+					ws.comps["cnt:"+ev] = true
+				}
+			} else {
+				ws.all = true
+			}
+		}
+		if !con.HasMod || con.ModAll {
+			ws.all = true
+		}
 		for _, em := range con.Emits {
 			ws.comps["cnt:"+em.Event] = true
 		}
@@ -561,38 +687,100 @@ func (g *Gen) writeSetOf(fn *ssa.Function) *writeSet {
 					g.compSortHints[comp] = s
 				}
 			case *ssa.MapUpdate:
+				if mt, ok := types.Unalias(x.Map.Type()).Underlying().(*types.Map); ok {
+					g.addMapComps(ws, mt)
+				} else {
+					ws.all = true
+				}
+			case *ssa.Send, *ssa.Select:
+				// channel state is not part of the modelled heap
+			case *ssa.Go:
 				ws.all = true
-			case *ssa.Send, *ssa.Select, *ssa.Go:
-				ws.all = true
+				ws.allEvents = true
+				ws.why = append(ws.why, fnKey(fn)+": go statement")
 			case ssa.CallInstruction:
 				cc := x.Common()
 				if b, ok := cc.Value.(*ssa.Builtin); ok {
 					switch b.Name() {
-					case "append", "copy", "delete", "clear", "close":
-						ws.all = true
+					case "append", "copy", "clear":
+						switch t := types.Unalias(cc.Args[0].Type()).Underlying().(type) {
+						case *types.Slice:
+							for _, leaf := range layout(t.Elem()) {
+								comp := "E:" + typeKey(t.Elem()) + leaf.Path
+								ws.comps[comp] = true
+								g.compSortHints[comp] = ArrSort(ArrSort(leaf.Sort))
+							}
+						case *types.Map:
+							g.addMapComps(ws, t)
+						default:
+							ws.all = true
+						}
+					case "delete":
+						if mt, ok := types.Unalias(cc.Args[0].Type()).Underlying().(*types.Map); ok {
+							g.addMapComps(ws, mt)
+						} else {
+							ws.all = true
+						}
 					}
 					continue
 				}
 				callee := cc.StaticCallee()
 				if callee == nil {
+					// interface method with a contract?
+					if cc.IsInvoke() {
+						if con := g.contractForMethod(cc.Value.Type(), cc.Method.Name()); con != nil {
+							for _, m := range con.Modifies {
+								if ev, ok := countEvent(m); ok {
+									ws.comps["cnt:"+ev] = true
+								} else {
+									ws.all = true
+								}
+							}
+							if !con.HasMod || con.ModAll {
+								ws.all = true
+							}
+							for _, em := range con.Emits {
+								ws.comps["cnt:"+em.Event] = true
+							}
+							continue
+						}
+					}
+					if cc.IsInvoke() && g.externalInterface(cc.Value.Type()) {
+						for _, a := range cc.Args {
+							g.addArgWrites(ws, a)
+						}
+						continue
+					}
 					ws.all = true
+					ws.allEvents = true
+					ws.why = append(ws.why, fnKey(fn)+": dynamic call "+calleeName(cc))
 					continue
 				}
 				if !g.inRepo(fnPkgPath(callee)) {
-					// external: writes only through arguments; approximate by "all" when a pointer/slice is passed
-					for _, a := range cc.Args {
-						switch types.Unalias(a.Type()).Underlying().(type) {
-						case *types.Pointer, *types.Slice, *types.Map, *types.Interface, *types.Signature:
-							if !isLocalAlloc(a) {
-								ws.all = true
+					if con := g.contractFor(callee); con != nil {
+						for _, m := range con.Modifies {
+							if ev, ok := countEvent(m); ok {
+								ws.comps["cnt:"+ev] = true
 							}
 						}
+						for _, em := range con.Emits {
+							ws.comps["cnt:"+em.Event] = true
+						}
+					}
+					// external code writes only through its arguments, one level (assumption); a func-typed
+					// argument may call back into the repository: everything
+					for _, a := range cc.Args {
+						g.addArgWrites(ws, a)
 					}
 					continue
 				}
 				sub := g.writeSetOf(callee)
 				if sub.all {
 					ws.all = true
+				}
+				if sub.allEvents {
+					ws.allEvents = true
+					ws.why = append(ws.why, sub.why...)
 				}
 				for c := range sub.comps {
 					ws.comps[c] = true
@@ -655,4 +843,193 @@ func mentionsGhost(src string, con *Contract) bool {
 		}
 	}
 	return false
+}
+
+func (g *Gen) addMapComps(ws *writeSet, mt *types.Map) {
+	mc := mapComp(mt)
+	ws.comps[mc+"!has"] = true
+	g.compSortHints[mc+"!has"] = ArrSort(ArrSort(SBool))
+	ws.comps[mc+"!len"] = true
+	g.compSortHints[mc+"!len"] = ArrSort(SInt)
+	for _, leaf := range layout(mt.Elem()) {
+		ws.comps[mc+"!val"+leaf.Path] = true
+		g.compSortHints[mc+"!val"+leaf.Path] = ArrSort(ArrSort(leaf.Sort))
+	}
+}
+
+// stable fields -------------------------------------------------------------------------
+
+// isStableComp: the component belongs to a field declared `decl stable T.f by <writers>`.
+func (g *Gen) isStableComp(comp string) bool {
+	for prefix := range g.stable {
+		if comp == prefix || strings.HasPrefix(comp, prefix+".") {
+			return true
+		}
+	}
+	return false
+}
+
+// checkStableDecls scans every function of the declaring package: only the listed writers (and
+// initialisation of freshly allocated objects) may store to a stable field.
+func (g *Gen) checkStableDecls() []*Obligation {
+	var out []*Obligation
+	for _, d := range g.cs.Decls {
+		if d.Kind != "stable" || len(d.Args) < 1 {
+			continue
+		}
+		sp := g.ssaPkgs[d.PkgPath]
+		if sp == nil {
+			continue
+		}
+		field := d.Args[0] // T.f
+		prefix := "H:" + sp.Pkg.Name() + "." + field
+		writers := map[string]bool{}
+		for _, w := range d.Args[1:] {
+			w = strings.Trim(w, ",")
+			if w != "by" && w != "" {
+				writers[w] = true
+			}
+		}
+		g.stable[prefix] = writers
+		var offenders []string
+		var visit func(fn *ssa.Function)
+		visit = func(fn *ssa.Function) {
+			key := fnKey(fn)
+			for _, b := range fn.Blocks {
+				for _, ins := range b.Instrs {
+					switch x := ins.(type) {
+					case *ssa.Store:
+						kind, p, _, ok := staticPrefix(x.Addr)
+						if !ok || kind != "H:" {
+							continue
+						}
+						full := kind + p
+						if (full == prefix || strings.HasPrefix(full, prefix+".")) && !writers[key] && !rootIsAlloc(x.Addr) {
+							offenders = append(offenders, key+" ("+g.fset.Position(x.Pos()).String()+")")
+						}
+					case *ssa.FieldAddr:
+						// the address of a stable field must not escape (only loads and stores)
+						kind, p, _, ok := staticPrefix(x)
+						if !ok || kind+p != prefix {
+							continue
+						}
+						for _, ref := range *x.Referrers() {
+							switch r := ref.(type) {
+							case *ssa.UnOp, *ssa.Store, *ssa.DebugRef, *ssa.FieldAddr, *ssa.IndexAddr:
+								_ = r
+							default:
+								if !writers[key] {
+									offenders = append(offenders, key+" takes the address of the field ("+g.fset.Position(x.Pos()).String()+")")
+								}
+							}
+						}
+					}
+				}
+			}
+			for _, a := range fn.AnonFuncs {
+				visit(a)
+			}
+		}
+		for _, m := range sp.Members {
+			switch x := m.(type) {
+			case *ssa.Function:
+				visit(x)
+			case *ssa.Type:
+				for _, T := range []types.Type{x.Type(), types.NewPointer(x.Type())} {
+					ms := g.prog.MethodSets.MethodSet(T)
+					for i := 0; i < ms.Len(); i++ {
+						if fn := g.prog.MethodValue(ms.At(i)); fn != nil && fn.Synthetic == "" && fn.Pkg == sp {
+							visit(fn)
+						}
+					}
+				}
+			}
+		}
+		o := &Obligation{Name: g.shortPkg(d.PkgPath) + "." + field + "#stable.writers", Kind: "stable", Fn: field,
+			Desc: "field " + field + " is stored only by its declared writers: " + strings.Join(d.Args[1:], " "), NAsserts: -1}
+		if len(offenders) == 0 {
+			o.Res = SolverResult{Result: "unsat", Solver: "ssa-scan"}
+		} else {
+			sort.Strings(offenders)
+			o.Res = SolverResult{Result: "unknown", Output: "also written by: " + strings.Join(dedupe(offenders), "; ")}
+		}
+		out = append(out, o)
+	}
+	return out
+}
+
+func dedupe(xs []string) []string {
+	var out []string
+	seen := map[string]bool{}
+	for _, x := range xs {
+		if !seen[x] {
+			seen[x] = true
+			out = append(out, x)
+		}
+	}
+	return out
+}
+
+func rootIsAlloc(addr ssa.Value) bool {
+	switch x := addr.(type) {
+	case *ssa.Alloc:
+		return true
+	case *ssa.FieldAddr:
+		return rootIsAlloc(x.X)
+	case *ssa.IndexAddr:
+		return rootIsAlloc(x.X)
+	}
+	return false
+}
+
+func (g *Gen) isStableWriter(comp string, fn *ssa.Function) bool {
+	if fn == nil {
+		return false
+	}
+	for prefix, writers := range g.stable {
+		if comp == prefix || strings.HasPrefix(comp, prefix+".") {
+			if writers[fnKey(fn)] {
+				return true
+			}
+		}
+	}
+	return false
+}
+
+// addArgWrites: what an external callee may write through one argument (one level).
+func (g *Gen) addArgWrites(ws *writeSet, a ssa.Value) {
+	if isLocalAlloc(a) {
+		return
+	}
+	switch t := types.Unalias(a.Type()).Underlying().(type) {
+	case *types.Pointer:
+		if _, isArr := types.Unalias(t.Elem()).Underlying().(*types.Array); isArr {
+			return
+		}
+		for _, leaf := range layout(t.Elem()) {
+			comp := "H:" + typeKey(t.Elem()) + leaf.Path
+			ws.comps[comp] = true
+			g.compSortHints[comp] = ArrSort(leaf.Sort)
+		}
+	case *types.Slice:
+		for _, leaf := range layout(t.Elem()) {
+			comp := "E:" + typeKey(t.Elem()) + leaf.Path
+			ws.comps[comp] = true
+			g.compSortHints[comp] = ArrSort(ArrSort(leaf.Sort))
+		}
+	case *types.Map:
+		g.addMapComps(ws, t)
+	case *types.Signature:
+		ws.all = true
+		ws.allEvents = true
+	}
+}
+
+// externalInterface: the static type of the receiver is a named interface declared outside the repository.
+func (g *Gen) externalInterface(T types.Type) bool {
+	n, ok := types.Unalias(T).(*types.Named)
+	if !ok || n.Obj().Pkg() == nil {
+		return false // error, any, anonymous interfaces: no
+	}
+	return !g.inRepo(n.Obj().Pkg().Path())
 }
